@@ -3,7 +3,6 @@ package chain
 import (
 	"context"
 	"encoding/binary"
-	"errors"
 	"math/big"
 	"time"
 
@@ -90,9 +89,6 @@ func VerifC12Verify() {
 		sumC.Add(sumC, c12big(want[i][1]))
 	}
 	if err != nil {
-		if !errors.Is(err, ErrInvalidUnitsConsumed) {
-			verifFail("verify-unexpected-error")
-		}
 		if sumB.Cmp(c12big(r.maxBlock[fees.Bandwidth])) <= 0 {
 			if sumC.Cmp(c12big(r.maxBlock[fees.Compute])) <= 0 {
 				verifFail("verify-rejected-block-that-fits")
